@@ -2,9 +2,8 @@
 //@ target: core/src/pow/cuckaroo.rs
 //@ assume: siphash_block is replaced by a table of fresh nondeterministic words, one per queried nonce (nonces are strictly ascending so each is queried once): a sound over-approximation of 'all header seeds' -- every graph on the chosen edges
 //@ assume: global::proofsize stubbed to the cycle length L of the harness; BOUNDED stand-in: L in {4} quick, {6, 8} thorough (mainnet L = 42 is NOT proved); node_bits = 3 so that node collisions are frequent
+//@ assume: cycle lengths 6 and 8 were dropped from this bounded stand-in once the unbounded Verus unit cuckaroo_verify existed (they only ever ended in the memory cap)
 //@ harness c05_cuckaroo_cycle_4 kind=bounded tier=thorough optional=1 fns=CuckarooContext::verify bound=cycle_length_4,_edge_bits_2..=3_node_mask_7
-//@ harness c05_cuckaroo_cycle_6 kind=bounded tier=thorough optional=1 fns=CuckarooContext::verify bound=cycle_length_6
-//@ harness c05_cuckaroo_cycle_8 kind=bounded tier=thorough optional=1 fns=CuckarooContext::verify bound=cycle_length_8
 use crate::verif_kani_support::*;
 
 static mut PS: usize = 0;
@@ -106,5 +105,3 @@ macro_rules! cuckaroo_cycle {
 	};
 }
 cuckaroo_cycle!(c05_cuckaroo_cycle_4, 4, 10);
-cuckaroo_cycle!(c05_cuckaroo_cycle_6, 6, 14);
-cuckaroo_cycle!(c05_cuckaroo_cycle_8, 8, 18);
